@@ -24,8 +24,16 @@ for _v in ("OMP_NUM_THREADS", "OPENBLAS_NUM_THREADS", "MKL_NUM_THREADS"):
     os.environ.setdefault(_v, "1")
 
 from ..core import Ctx, Report, pmap
-from ..mcakit import build, close, cmp_frame, content_of, fl, norm_point
+from ..mcakit import build, close, cmp_frame, content_of, fl, norm_point, rate_factor, scale_of
 from ..tlc import MachineryError
+
+WORKERS = 8          # the machine is shared: TLC workers and replay processes are capped
+
+
+def _tlc(ctx, *a, **k):
+    k.setdefault("workers", WORKERS)
+    return ctx.tlc(*a, **k)
+
 
 RULE = ("one case = (network point, routine, scaled?, variables= given?, to_scan, sequential/parallel); non-trivial = "
         "every case (each compares a full coefficient table and the model content before/after); distinct by content")
@@ -36,21 +44,21 @@ REL_RC = 1e-6          # plus the absolute bound derived from the integrator tol
 
 
 def mc(ctx: Ctx, rep: Report) -> None:
-    res = ctx.tlc("McaProc.tla", "McaProc_seq.cfg", coverage=True, workers=4)
+    res = _tlc(ctx, "McaProc.tla", "McaProc_seq.cfg", coverage=True, workers=4)
     rep.add_tlc(res, "procedure, sequential, restoring parameters and supplied initial values: caller's model restored, "
                      "every task returns the entry model's quotient")
     rep.require_coverage(res, ["Start", "PerturbUp", "SteadyUp", "PerturbDown", "SteadyDown", "Restore", "Normalise",
                                "RestoreInit", "Finish"])
-    res = ctx.tlc("McaProc.tla", "McaProc_par.cfg", workers=8)
+    res = _tlc(ctx, "McaProc.tla", "McaProc_par.cfg", workers=8)
     rep.add_tlc(res, "procedure, parallel on per-task copies: same results in every interleaving, caller's model never written")
     for cfg, what in [("McaProc_cycle_seq.cfg", "closed loop (steady state depends on the starting state), sequential: model restored, "
                                                  "difference AND scaling are taken at the supplied state"),
                       ("McaProc_cycle_par.cfg", "closed loop, parallel on per-task copies: same results in every interleaving"),
                       ("McaProc_chain_early.cfg", "open chain: taking the supplied initial values back before the reference steady "
                                                   "state is invisible (unique steady state)")]:
-        res = ctx.tlc("McaProc.tla", cfg, workers=4)
+        res = _tlc(ctx, "McaProc.tla", cfg, workers=4)
         rep.add_tlc(res, f"procedure, {what}")
-    res = ctx.tlc("McaProc.tla", "McaProc_pinned_rest.cfg", workers=4)
+    res = _tlc(ctx, "McaProc.tla", "McaProc_pinned_rest.cfg", workers=4)
     rep.add_tlc(res, "pinned shape: parameters restored and coefficients right (only the initial values are at fault)")
     for cfg, inv, what in [
         ("McaProc_pinned.cfg", "InitsRestored", "pinned mca.py shape (supplied initial values never taken back), sequential"),
@@ -60,13 +68,13 @@ def mc(ctx: Ctx, rep: Report) -> None:
                                                      "state - the scaling is then taken at the model's own state"),
         ("McaProc_reach.cfg", "Reached", "vacuity guard: finished runs with supplied initial values and normalisation exist"),
     ]:
-        r = ctx.tlc("McaProc.tla", cfg, expect_violation=True, workers=4)
+        r = _tlc(ctx, "McaProc.tla", cfg, expect_violation=True, workers=4)
         if r.violated != inv:
             raise MachineryError(f"{cfg}: TLC was expected to violate {inv} ({what}) but reported {r.violated}: "
                                  "the specification has lost its teeth")
         rep.add_tlc(r, f"expected counterexample: {what}")
     if not ctx.quick:
-        res = ctx.tlc("Mca.tla", "Mca_mid.cfg")
+        res = _tlc(ctx, "Mca.tla", "Mca_mid.cfg")
         rep.add_tlc(res, "theorems on the middle grid (3 values per symbol)")
 
 
@@ -87,18 +95,35 @@ def _decoys(vars_):
     return {v: 7.0 + j for j, v in enumerate(vars_)}
 
 
-def elasticity_cases(pt: dict, rnd: random.Random) -> tuple[list, dict]:
-    """Both elasticity routines on one point. Returns (mismatches, stats)."""
+class _ScaledTable:
+    """table[col][row] of the point -> the same entry of its scaled twin (Mca.tla, Homogeneous)."""
+
+    def __init__(self, table: dict, pt: dict, unscaled_coefficient: bool):
+        self.table, self.pt, self.unscaled = table, pt, unscaled_coefficient
+
+    def __getitem__(self, col):
+        pt, row_of = self.pt, self.table[col]
+        if not self.unscaled:
+            return row_of
+        out = {}
+        for r, v in row_of.items():
+            x = fl(v)
+            out[r] = v if x is None else {"float": x * rate_factor(pt, r, True) / scale_of(pt, col, True)}
+        return out
+
+
+def elasticity_cases(pt: dict, rnd: random.Random, scaled: bool = False) -> tuple[list, dict]:
+    """Both elasticity routines on one point (scaled: on its scaled twin). Returns (mismatches, stats)."""
     from mxlpy import mca
 
     vars_, pars, rxns = _tabs(pt)
-    env = {k: fl(v) for k, v in pt["env"].items()}
-    flux = {r: fl(v) for r, v in pt["flux"].items()}
+    env = {k: fl(v) * scale_of(pt, k, scaled) for k, v in pt["env"].items()}
+    flux = {r: fl(v) * rate_factor(pt, r, scaled) for r, v in pt["flux"].items()}
     out: list = []
     stats = {"cases": 0, "worst": 0.0}
     state = {v: env[v] for v in vars_}
     for with_vars in (False, True):
-        model, _ = build(pt, inits=_decoys(vars_) if with_vars else None)
+        model, _ = build(pt, inits=_decoys(vars_) if with_vars else None, scaled=scaled)
         if not with_vars:
             # spec validation: the float interpreter of the trees against the specification's exact fluxes
             f = model.get_fluxes()
@@ -113,7 +138,9 @@ def elasticity_cases(pt: dict, rnd: random.Random) -> tuple[list, dict]:
                 scans = [None, [syms[rnd.randrange(len(syms))]]]
                 for to_scan in scans:
                     scn = {"kind": "elasticity", "routine": routine, "net": pt["net"], "env": pt["env"],
-                           "normalized": normalized, "with_variables": with_vars, "to_scan": to_scan, "parallel": False}
+                           "normalized": normalized, "with_variables": with_vars, "to_scan": to_scan, "parallel": False,
+                           "scaled_twin": scaled}
+                    exp_tab = _ScaledTable(tab, pt, unscaled_coefficient=not normalized) if scaled else tab
                     before = content_of(model)
                     stats["cases"] += 1
                     try:
@@ -125,8 +152,10 @@ def elasticity_cases(pt: dict, rnd: random.Random) -> tuple[list, dict]:
 
                     def abs_of(c, r, normalized=normalized):
                         # rounding of the difference quotient: eps * |v| / (h * |s|); scaled: eps / h
+                        if scaled:       # everything relative to the twin's own magnitudes
+                            return 1e-9 * (1.0 if normalized else abs(flux[r]) / abs(env[c]))
                         return 1e-9 * (1.0 if normalized else max(abs(flux[r]), 1e-3) / abs(env[c])) + 1e-12
-                    bad = cmp_frame(df, tab, cols, rxns, REL_EL, abs_of)
+                    bad = cmp_frame(df, exp_tab, cols, rxns, REL_EL, abs_of)
                     if "ok" not in bad:
                         out.append({"scn": scn, "detail": bad})
                     else:
@@ -234,6 +263,9 @@ def _seq_point(item):
     pt, seed = item
     rnd = random.Random(f"{seed}/{json.dumps(pt['env'], sort_keys=True)}/{pt['net']}")
     out, st = elasticity_cases(pt, rnd)
+    o_tw, st_tw = elasticity_cases(pt, rnd, scaled=True)        # the scaled twin: small numbers are numbers
+    out += o_tw
+    st = {"cases": st["cases"] + st_tw["cases"], "worst": max(st["worst"], st_tw["worst"])}
     st2 = {"cases": 0, "worst": 0.0, "parallel": 0}
     if pt["hasss"]:
         o2, st2 = response_cases(pt, rnd, parallel_too=False)
@@ -258,7 +290,7 @@ def classify(scn: dict, detail: dict) -> str | None:
 
 def points(ctx: Ctx, rep: Report) -> list[dict]:
     cfg = "Mca_quick.cfg" if ctx.quick else "Mca_full.cfg"
-    res = ctx.tlc("Mca.tla", cfg)
+    res = _tlc(ctx, "Mca.tla", cfg)
     rep.add_tlc(res, f"theorems ScaledIsOrder, QuotExact, SteadyIsSteady, Summation on every point + coefficient tables ({cfg})")
     pts = [norm_point(p) for p in res.payloads]
     if len(pts) < 200:
@@ -325,7 +357,7 @@ def run(ctx: Ctx) -> int:
     rnd = random.Random(ctx.seed)
     cap = 336 if ctx.quick else 4000
     pick = pts if len(pts) <= cap else rnd.sample(pts, cap)
-    results = pmap(_seq_point, [(p, ctx.seed) for p in pick], chunk=4)
+    results = pmap(_seq_point, [(p, ctx.seed) for p in pick], procs=WORKERS, chunk=4)
     worst_el = worst_rc = 0.0
     n_el = n_rc = 0
     for pt, (bads, st, st2) in zip(pick, results):
@@ -350,7 +382,7 @@ def run(ctx: Ctx) -> int:
     import multiprocessing as mp
 
     n_parcalls = 0
-    with ProcessPoolExecutor(max_workers=6, mp_context=mp.get_context("fork")) as ex:
+    with ProcessPoolExecutor(max_workers=4, mp_context=mp.get_context("fork")) as ex:
         for pt, (bads, st) in zip(par_pts, ex.map(_par_point, [(p, ctx.seed) for p in par_pts])):
             rep.replayed += 1
             n_rc += st["cases"]
@@ -381,11 +413,11 @@ def replay(ctx: Ctx, doc: dict) -> int:
     """Re-run the failing routine call of a replay file on the current tree."""
     scn = doc["scenario"]
     rep = Report(ctx)
-    res = ctx.tlc("Mca.tla", "Mca_quick.cfg" if ctx.quick else "Mca_full.cfg")
+    res = _tlc(ctx, "Mca.tla", "Mca_quick.cfg" if ctx.quick else "Mca_full.cfg")
     pts = [norm_point(p) for p in res.payloads]
     pt = next((p for p in pts if p["net"] == scn["net"] and p["env"] == scn["env"]), None)
     if pt is None:
-        res = ctx.tlc("Mca.tla", "Mca_full.cfg")
+        res = _tlc(ctx, "Mca.tla", "Mca_full.cfg")
         pt = next((p for p in [norm_point(q) for q in res.payloads] if p["net"] == scn["net"] and p["env"] == scn["env"]), None)
     if pt is None:
         raise MachineryError("the point of the replay file is not in the specification's family")
